@@ -9,6 +9,17 @@ use vmon::prng::Rng;
 pub type Fail = (String, String); // (narrow class, detail)
 
 pub const FULL: (u32, u32) = (0, u32::MAX);
+/// one class whatever operation exposed it: an entry without rows is kept, so `is_empty()` is false
+pub const EMPTY_CLASS: &str = "is_empty-false-on-set-without-rows";
+
+/// prefix a failure class with the operation that was being checked
+pub fn pfx(what: &str, (c, d): Fail) -> Fail {
+    if c == EMPTY_CLASS {
+        (c, format!("after {what}: {d}"))
+    } else {
+        (format!("{what}:{c}"), d)
+    }
+}
 /// sets up to this size are compared element by element in iteration order
 pub const ROW_IDS_LIMIT: u128 = 20_000;
 
@@ -85,7 +96,7 @@ pub fn check_map(real: &RowIdTreeMap, model: &IvSet, cand: &BTreeSet<u32>) -> Re
     }
     if real.is_empty() != model.is_empty() {
         return Err((
-            "is_empty".into(),
+            EMPTY_CLASS.into(),
             format!(
                 "is_empty() = {}, but the set has {} elements (len() = {:?})",
                 real.is_empty(),
@@ -299,14 +310,7 @@ impl Pair {
         }
     }
     pub fn check(&self, what: &str) -> Result<(), Fail> {
-        check_map(&self.real, &self.model, &self.touched).map_err(|(c, d)| {
-            if c == "is_empty" {
-                // one class whatever operation exposed it: an entry without rows is kept
-                ("is_empty-false-on-set-without-rows".to_string(), format!("after {what}: {d}"))
-            } else {
-                (format!("{what}:{c}"), d)
-            }
-        })
+        check_map(&self.real, &self.model, &self.touched).map_err(|e| pfx(what, e))
     }
     pub fn frag_is_full(&self, f: u32) -> bool {
         self.model.frag(f) == vec![FULL]
@@ -349,7 +353,10 @@ impl Pools {
             0 => *rng.pick(OFF_POOL),
             1 => rng.below(64) as u32,
             2 => (*rng.pick(OFF_POOL)).wrapping_add(rng.below(5) as u32).wrapping_sub(2),
-            _ => rng.below(if rng.chance(1, 8) { 200_000 } else { 2_000 }) as u32,
+            _ => {
+                let lim = if rng.chance(1, 8) { 200_000 } else { 2_000 };
+                rng.below(lim) as u32
+            }
         }
     }
     pub fn val(&self, rng: &mut Rng) -> u64 {
@@ -371,7 +378,10 @@ impl Pools {
             }
             4 => (a, (a | 0xFFFF_FFFF).min(a.saturating_add(rng.below(300)))), // up to the end of the fragment
             5 => (a & !0xFFFF_FFFF, (a & !0xFFFF_FFFF) + rng.below(300)),       // from the start
-            _ => (a, a.saturating_add(rng.below(if rng.chance(1, 10) { 5_000 } else { 200 }))),
+            _ => {
+                let lim = if rng.chance(1, 10) { 5_000 } else { 200 };
+                (a, a.saturating_add(rng.below(lim)))
+            }
         };
         let s = match rng.below(8) {
             0 => B::Exc(lo.wrapping_sub(1)),
@@ -391,6 +401,15 @@ impl Pools {
 /// One random mutating operation applied to both sides; Err = refuting observation.
 /// `heavy` allows operations that materialise a whole 2^32-row bitmap (512 MB each).
 pub fn random_op(p: &mut Pair, pools: &Pools, rng: &mut Rng, heavy: bool) -> Result<(), Fail> {
+    let t0 = std::time::Instant::now();
+    let r = random_op_inner(p, pools, rng, heavy);
+    if std::env::var("C21_TRACE").is_ok() {
+        eprintln!("trace: {:?} {:.3}s", p.log.last(), t0.elapsed().as_secs_f64());
+    }
+    r
+}
+
+fn random_op_inner(p: &mut Pair, pools: &Pools, rng: &mut Rng, heavy: bool) -> Result<(), Fail> {
     let k = rng.below(100);
     if k < 30 {
         let v = pools.val(rng);
@@ -522,25 +541,42 @@ pub fn apply_range(p: &mut Pair, r: RangeSpec, heavy: bool) -> Result<(), Fail> 
     Ok(())
 }
 
-pub fn gen_pair(pools: &Pools, rng: &mut Rng, max_ops: usize, heavy: bool) -> Result<Pair, (Fail, Vec<String>)> {
+/// Random operation sequence. A refuting observation is recorded and the model is then re-read
+/// from the real map so that the following operations are still checked.
+pub fn gen_pair(pools: &Pools, rng: &mut Rng, max_ops: usize, heavy: bool, fails: &mut Vec<Fail>) -> Pair {
     let mut p = Pair::new();
     let n = rng.urange(0, max_ops);
     for _ in 0..n {
         if let Err(e) = random_op(&mut p, pools, rng, heavy) {
-            return Err((e, p.log.clone()));
+            fails.push(e);
+            match extract(&p.real, &p.touched) {
+                Some(m) => {
+                    p.model = m;
+                    p.log.push("<model re-read from the real map>".into());
+                }
+                None => break,
+            }
         }
     }
-    Ok(p)
+    p
 }
 
-/// `a - b` materialises a full bitmap when a has a full-fragment marker where b is partial.
+/// Observed representation: is fragment f a full-fragment marker in the real map?
+pub fn real_full(t: &RowIdTreeMap, f: u32) -> bool {
+    t.get_fragment_bitmap(f).is_none() && t.contains(addr(f, 0))
+}
+
+/// `x - y` materialises a 2^32-row bitmap (10 s, 512 MB) when x has a full-fragment marker where y
+/// has a bitmap entry (even an empty one). Decided on the observed representation; used only to
+/// decide which operations are *skipped*, never for a verdict.
+pub fn real_sub_is_heavy(x: &RowIdTreeMap, y: &RowIdTreeMap, frags: &BTreeSet<u32>) -> bool {
+    frags
+        .iter()
+        .any(|f| real_full(x, *f) && y.get_fragment_bitmap(*f).is_some())
+}
+
 pub fn sub_is_heavy(a: &Pair, b: &Pair) -> bool {
-    a.touched.iter().any(|f| {
-        a.frag_is_full(*f) && {
-            let bf = b.model.frag(*f);
-            !bf.is_empty() && bf != vec![FULL]
-        }
-    })
+    real_sub_is_heavy(&a.real, &b.real, &union_touched(a, b))
 }
 
 fn union_touched(a: &Pair, b: &Pair) -> BTreeSet<u32> {
@@ -548,40 +584,42 @@ fn union_touched(a: &Pair, b: &Pair) -> BTreeSet<u32> {
 }
 
 /// All binary set operations of the tree map (operator and assign forms), checked exactly.
-pub fn check_binary(a: &Pair, b: &Pair, heavy: bool) -> Result<u64, Fail> {
+/// Returns the number of operations checked and every refuting observation.
+pub fn check_binary(a: &Pair, b: &Pair, heavy: bool) -> (u64, Vec<Fail>) {
     let cand = union_touched(a, b);
     let mut n = 0;
+    let mut fails = vec![];
+    let mut note = |what: &str, r: Result<(), Fail>| {
+        n += 1;
+        if let Err(e) = r {
+            fails.push(pfx(what, e));
+        }
+    };
     // union
     let u = a.model.union(&b.model);
-    check_map(&(a.real.clone() | b.real.clone()), &u, &cand).map_err(|(c, d)| (format!("union:{c}"), d))?;
+    note("union", check_map(&(a.real.clone() | b.real.clone()), &u, &cand));
     let mut t = a.real.clone();
     t |= b.real.clone();
-    check_map(&t, &u, &cand).map_err(|(c, d)| (format!("union-assign:{c}"), d))?;
-    check_map(&RowIdTreeMap::union_all(&[&a.real, &b.real]), &u, &cand)
-        .map_err(|(c, d)| (format!("union_all:{c}"), d))?;
+    note("union-assign", check_map(&t, &u, &cand));
+    note("union_all", check_map(&RowIdTreeMap::union_all(&[&a.real, &b.real]), &u, &cand));
     let mut t = a.real.clone();
     t.extend(std::iter::once(b.real.clone()));
-    check_map(&t, &u, &cand).map_err(|(c, d)| (format!("extend-maps:{c}"), d))?;
-    n += 4;
+    note("extend-maps", check_map(&t, &u, &cand));
     // intersection
     let i = a.model.intersect(&b.model);
-    check_map(&(a.real.clone() & b.real.clone()), &i, &cand)
-        .map_err(|(c, d)| (format!("intersection:{c}"), d))?;
+    note("intersection", check_map(&(a.real.clone() & b.real.clone()), &i, &cand));
     let mut t = a.real.clone();
     t &= &b.real;
-    check_map(&t, &i, &cand).map_err(|(c, d)| (format!("intersection-assign:{c}"), d))?;
-    n += 2;
+    note("intersection-assign", check_map(&t, &i, &cand));
     // difference
     if heavy || !sub_is_heavy(a, b) {
         let d = a.model.minus(&b.model);
-        check_map(&(a.real.clone() - b.real.clone()), &d, &cand)
-            .map_err(|(c, dd)| (format!("difference:{c}"), dd))?;
+        note("difference", check_map(&(a.real.clone() - b.real.clone()), &d, &cand));
         let mut t = a.real.clone();
         t -= &b.real;
-        check_map(&t, &d, &cand).map_err(|(c, dd)| (format!("difference-assign:{c}"), dd))?;
-        n += 2;
+        note("difference-assign", check_map(&t, &d, &cand));
     }
-    Ok(n)
+    (n, fails)
 }
 
 /// Serialisation of a tree map: size, round trip, structural equality.
@@ -598,7 +636,7 @@ pub fn check_serde(a: &Pair) -> Result<(), Fail> {
     }
     let back = RowIdTreeMap::deserialize_from(&buf[..])
         .map_err(|e| ("deserialize:error".to_string(), e.to_string()))?;
-    check_map(&back, &a.model, &a.touched).map_err(|(c, d)| (format!("deserialize:{c}"), d))?;
+    check_map(&back, &a.model, &a.touched).map_err(|e| pfx("deserialize", e))?;
     if back != a.real {
         return Err(("deserialize:not-equal-to-original".into(), String::new()));
     }
@@ -650,13 +688,8 @@ impl MaskPair {
     }
     /// `normalize` (used by `|`) computes allow - block
     pub fn normalize_is_heavy(&self) -> bool {
-        match (&self.allow, &self.block) {
-            (Some(a), Some(b)) => self.touched.iter().any(|f| {
-                a.frag(*f) == vec![FULL] && {
-                    let bf = b.frag(*f);
-                    !bf.is_empty() && bf != vec![FULL]
-                }
-            }),
+        match (&self.real.allow_list, &self.real.block_list) {
+            (Some(a), Some(b)) => real_sub_is_heavy(a, b, &self.touched),
             _ => false,
         }
     }
@@ -794,8 +827,9 @@ pub fn check_mask_unary(m: &MaskPair, rng: &mut Rng, pools: &Pools) -> Result<()
     Ok(())
 }
 
-/// `!`, `&`, `|`, also_block, also_allow, RowIdTreeMap::mask. Returns number of checked ops.
-pub fn check_mask_ops(a: &MaskPair, b: &MaskPair, extra: &Pair, heavy: bool) -> Result<u64, Fail> {
+/// `!`, `&`, `|`, also_block, also_allow, RowIdTreeMap::mask. Returns the number of checked
+/// operations and every refuting observation.
+pub fn check_mask_ops(a: &MaskPair, b: &MaskPair, extra: &Pair, heavy: bool) -> (u64, Vec<Fail>) {
     let mut cand: BTreeSet<u32> = a.touched.union(&b.touched).copied().collect();
     cand.extend(extra.touched.iter().copied());
     let sa = a.sel();
@@ -803,25 +837,30 @@ pub fn check_mask_ops(a: &MaskPair, b: &MaskPair, extra: &Pair, heavy: bool) -> 
     let mut probes = sa.probes();
     probes.extend(sb.probes());
     let mut n = 0;
+    let mut fails = vec![];
+    let mut note = |what: String, r: Result<bool, Fail>| {
+        n += 1;
+        if let Err((c, d)) = r {
+            fails.push((format!("{what}:{c}"), d));
+        }
+    };
     // complement
-    check_mask(&!a.real.clone(), &sa.complement(), &cand, &probes)
-        .map_err(|(c, d)| (format!("mask-not:{}:{c}", a.shape()), d))?;
-    n += 1;
+    note(format!("mask-not:{}", a.shape()), check_mask(&!a.real.clone(), &sa.complement(), &cand, &probes));
     // intersection
-    check_mask(&(a.real.clone() & b.real.clone()), &sa.intersect(&sb), &cand, &probes)
-        .map_err(|(c, d)| (format!("mask-and:{}&{}:{c}", a.shape(), b.shape()), d))?;
-    n += 1;
+    note(
+        format!("mask-and:{}&{}", a.shape(), b.shape()),
+        check_mask(&(a.real.clone() & b.real.clone()), &sa.intersect(&sb), &cand, &probes),
+    );
     // union
     if heavy || !(a.normalize_is_heavy() || b.normalize_is_heavy() || or_is_heavy(a, b)) {
-        check_mask(&(a.real.clone() | b.real.clone()), &sa.union(&sb), &cand, &probes)
-            .map_err(|(c, d)| (format!("mask-or:{}|{}:{c}", a.shape(), b.shape()), d))?;
-        n += 1;
+        note(
+            format!("mask-or:{}|{}", a.shape(), b.shape()),
+            check_mask(&(a.real.clone() | b.real.clone()), &sa.union(&sb), &cand, &probes),
+        );
     }
     // also_block: the rows of the extra set are no longer selected
     let r = a.real.clone().also_block(extra.real.clone());
-    check_mask(&r, &sa.minus(&extra.model), &cand, &probes)
-        .map_err(|(c, d)| (format!("mask-also_block:{}:{c}", a.shape()), d))?;
-    n += 1;
+    note(format!("mask-also_block:{}", a.shape()), check_mask(&r, &sa.minus(&extra.model), &cand, &probes));
     // also_allow: adds to the allow list; the block list still takes precedence
     let r = a.real.clone().also_allow(extra.real.clone());
     let want = match &a.block {
@@ -829,40 +868,30 @@ pub fn check_mask_ops(a: &MaskPair, b: &MaskPair, extra: &Pair, heavy: bool) -> 
         None => sa.union(&extra.model),
     };
     let want = if a.allow.is_none() { sa.clone() } else { want };
-    check_mask(&r, &want, &cand, &probes).map_err(|(c, d)| (format!("mask-also_allow:{}:{c}", a.shape()), d))?;
-    n += 1;
+    note(format!("mask-also_allow:{}", a.shape()), check_mask(&r, &want, &cand, &probes));
     // RowIdTreeMap::mask == intersection of the set with the selected rows
-    let mask_heavy = match &a.block {
-        Some(bl) => extra.touched.iter().any(|f| {
-            extra.frag_is_full(*f) && {
-                let bf = bl.frag(*f);
-                !bf.is_empty() && bf != vec![FULL]
-            }
-        }),
+    let mask_heavy = match &a.real.block_list {
+        Some(bl) => real_sub_is_heavy(&extra.real, bl, &cand),
         None => false,
     };
     if heavy || !mask_heavy {
         let mut t = extra.real.clone();
         t.mask(&a.real);
-        check_map(&t, &extra.model.intersect(&sa), &cand)
-            .map_err(|(c, d)| (format!("treemap-mask:{}:{c}", a.shape()), d))?;
         n += 1;
+        if let Err(e) = check_map(&t, &extra.model.intersect(&sa), &cand) {
+            fails.push(pfx(&format!("treemap-mask:{}", a.shape()), e));
+        }
     }
-    Ok(n)
+    (n, fails)
 }
 
 /// `|` subtracts the other side's allow list from a block list: heavy when the block list has a
 /// full-fragment marker where the allow list is partial.
 fn or_is_heavy(a: &MaskPair, b: &MaskPair) -> bool {
-    let chk = |bl: &Option<IvSet>, al: &Option<IvSet>, t: &BTreeSet<u32>| match (bl, al) {
-        (Some(bl), Some(al)) => t.iter().any(|f| {
-            bl.frag(*f) == vec![FULL] && {
-                let af = al.frag(*f);
-                !af.is_empty() && af != vec![FULL]
-            }
-        }),
+    let t: BTreeSet<u32> = a.touched.union(&b.touched).copied().collect();
+    let chk = |bl: &Option<RowIdTreeMap>, al: &Option<RowIdTreeMap>| match (bl, al) {
+        (Some(bl), Some(al)) => real_sub_is_heavy(bl, al, &t),
         _ => false,
     };
-    let t: BTreeSet<u32> = a.touched.union(&b.touched).copied().collect();
-    chk(&a.block, &b.allow, &t) || chk(&b.block, &a.allow, &t)
+    chk(&a.real.block_list, &b.real.allow_list) || chk(&b.real.block_list, &a.real.allow_list)
 }
